@@ -92,6 +92,15 @@ class AstToDjangoQVisitor(visitor.NodeVisitor):
 
         return res
 
+    def generic_visit(self, node: ast._Node) -> Any:
+        """
+        Nodes without a dedicated visitor method (e.g. geography literals outside
+        geo functions) cannot be expressed: refuse them instead of returning ``None``.
+
+        :meta private:
+        """
+        raise ex.TypeException("Django translation", type(node).__name__)
+
     def visit_Identifier(self, node: ast.Identifier) -> F:
         ":meta private:"
         return F(node.name)
